@@ -63,7 +63,8 @@ def ConfigM.new (inv : Str) (nodes classes : Option Str) (ignore : Option Bool) 
              ignoreClassNotfound := ignore.getD false }
 
 /-- Parse one pattern of the modelled sub-language (`none`: outside the sub-language). -/
-def isWordCharM (c : Char) : Bool := c.isAlphanum || c = '_' || c = '-'
+/- non-ASCII characters are literals for the regex crate as well (no `x` flag is used) -/
+def isWordCharM (c : Char) : Bool := c.isAlphanum || c = '_' || c = '-' || c.val ≥ 128
 
 def litTextM : Str → Option Str
   | [] => some []
